@@ -447,26 +447,53 @@ pub fn fidelity_main(n_plans: u64) -> i32 {
             let (ordinal, expect) = rec[r.below(rec.len() as u64) as usize];
             let dir = base.join("fid-child");
             let _ = std::fs::remove_dir_all(&dir);
-            let st = std::process::Command::new(&exe)
-                .args(["kill-at", planfile.to_str().unwrap(), &ordinal.to_string(), dir.to_str().unwrap()])
-                .stdout(std::process::Stdio::null())
-                .stderr(std::process::Stdio::null())
-                .status()
-                .unwrap();
-            use std::os::unix::process::ExitStatusExt;
-            if st.signal() != Some(libc::SIGKILL) {
-                eprintln!("HARNESS-ERROR fidelity: child did not die by SIGKILL at image {ordinal} of seed {seed}: {st}");
-                return 2;
-            }
-            // reopen what the dead process left behind (lock file included)
-            let env = unsafe { EnvOpenOptions::new().read_txn_without_tls().map_size(plan.cfg.map_size).max_readers(16).open(dir.join("env")) }.unwrap();
-            let got = {
-                let rtxn = env.read_txn().unwrap();
-                let db: Option<RawDb> = env.open_database(&rtxn, None).unwrap();
-                db.map(|db| dump_hash(&crate::snapshot::dump_txn(&rtxn, db)))
+            let kill_for_real = |dir: &std::path::Path| -> Result<Option<u64>, String> {
+                let _ = std::fs::remove_dir_all(dir);
+                let st = std::process::Command::new(&exe)
+                    .args(["kill-at", planfile.to_str().unwrap(), &ordinal.to_string(), dir.to_str().unwrap()])
+                    .stdout(std::process::Stdio::null())
+                    .stderr(std::process::Stdio::null())
+                    .status()
+                    .unwrap();
+                use std::os::unix::process::ExitStatusExt;
+                if st.signal() != Some(libc::SIGKILL) {
+                    return Err(format!("{st}"));
+                }
+                // reopen what the dead process left behind (lock file included)
+                let env = unsafe { EnvOpenOptions::new().read_txn_without_tls().map_size(plan.cfg.map_size).max_readers(16).open(dir.join("env")) }.unwrap();
+                let got = {
+                    let rtxn = env.read_txn().unwrap();
+                    let db: Option<RawDb> = env.open_database(&rtxn, None).unwrap();
+                    db.map(|db| dump_hash(&crate::snapshot::dump_txn(&rtxn, db)))
+                };
+                env.prepare_for_closing().wait();
+                let _ = std::fs::remove_dir_all(dir);
+                Ok(got)
             };
-            env.prepare_for_closing().wait();
-            let _ = std::fs::remove_dir_all(&dir);
+            let got = match kill_for_real(&dir) {
+                Ok(g) => g,
+                Err(st) => {
+                    // (a tree under test that is not a function of the seed may not even reach that event)
+                    let (_, rec2) = run_mode(&plan, &base.join("run"), None, false);
+                    if rec2 != rec {
+                        *by_phase.entry("not_comparable_tree_not_a_function_of_the_seed".into()).or_insert(0) += 1;
+                        continue;
+                    }
+                    eprintln!("HARNESS-ERROR fidelity: child did not die by SIGKILL at image {ordinal} of seed {seed}: {st}");
+                    return 2;
+                }
+            };
+            if got != Some(expect) {
+                // is the execution a function of the plan at all, in this tree? the simulated run three more
+                // times and the real kill twice more must all agree among themselves before the two sides are
+                // held against each other
+                let sims_agree = (0..3).all(|_| run_mode(&plan, &base.join("run"), None, false).1 == rec);
+                let kills_agree = (0..2).all(|_| kill_for_real(&dir).ok() == Some(got));
+                if !(sims_agree && kills_agree) {
+                    *by_phase.entry("not_comparable_tree_not_a_function_of_the_seed".into()).or_insert(0) += 1;
+                    continue;
+                }
+            }
             pairs += 1;
             *by_phase.entry(if got == Some(expect) { "agree".into() } else { "disagree".into() }).or_insert(0) += 1;
             if got != Some(expect) {
